@@ -545,13 +545,13 @@ theorem user_start_accepted_iff [Sqrt α] (minNorm : α) (hmin : 0 < minNorm) (P
   start_accepts_iff minNorm hmin P mufx miu nan x0 hne
 
 /-- `m_kkt ≤ ε` ⇔ each of the KKT conditions `solver_state_t::update` evaluates holds within `ε`. As coded, the
-    stationarity test `|∇f(x) + Aᵀv + Gᵀu|∞` is part of it only when the program has at least one constraint (`kktTest`). -/
-theorem kkt_test_le_iff (P : Prog α) (x u v : List α) (eps : α) :
-    kktTest P x u v ≤ eps ↔ 0 ≤ eps ∧
+    stationarity test `|∇f(x) + Aᵀv + Gᵀu|∞` is part of it only when the caller stated at least one constraint (`kktTest`). -/
+theorem kkt_test_le_iff (P : Prog α) (unc : Bool) (x u v : List α) (eps : α) :
+    kktTest P unc x u v ≤ eps ↔ 0 ≤ eps ∧
       (P.G ≠ [] → (∀ a ∈ slack P x, a ≤ eps) ∧ (∀ a ∈ u, -a ≤ eps) ∧ ∀ a ∈ hmul u (slack P x), |a| ≤ eps) ∧
       (P.A ≠ [] → ∀ a ∈ vsub (mv P.A x) P.b, |a| ≤ eps) ∧
-      (P.G ≠ [] ∨ P.A ≠ [] → ∀ a ∈ lagGrad P x u v, |a| ≤ eps) :=
-  kktTest_le_iff P x u v eps
+      (unc = false → ∀ a ∈ lagGrad P x u v, |a| ≤ eps) :=
+  kktTest_le_iff P unc x u v eps
 
 /-! ### non-vacuity: `min ½x₀² + 3x₁  s.t.  x₀ + x₁ = 1,  −x₁ ≤ 0`, optimum `x* = (1, 0)`, `u* = 2`, `v* = −1` -/
 
@@ -658,12 +658,12 @@ example : makeStrictlyFeasible (⟨[], [1], [], [], [[1]], [0]⟩ : Prog ℚ) (3
 
 /-- a program without any constraint: `m_kkt = 0` at a point that is NOT stationary (`min ½(x+y)² + x + 3y`, Q singular, at `(−1, 0)`:
     `Q x + c = (0, 2)`), replayed on the code by the corpus line "m_kkt without stationarity" -/
-example : kktTest (⟨[[1, 1], [1, 1]], [1, 3], [], [], [], []⟩ : Prog ℚ) [-1, 0] [] [] = 0 ∧
+example : kktTest (⟨[[1, 1], [1, 1]], [1, 3], [], [], [], []⟩ : Prog ℚ) true [-1, 0] [] [] = 0 ∧
     lagGrad (⟨[[1, 1], [1, 1]], [1, 3], [], [], [], []⟩ : Prog ℚ) [-1, 0] [] [] = [0, 2] := by
   norm_num [kktTest, lagGrad, gradObj, mv, dot, vadd, tmv, zeros, Prog.n, List.replicate]
 
 /-- the KKT point of `exP` has `m_kkt = 0` -/
-example : kktTest (exP ℚ) [1, 0] [2] [-1] ≤ 0 := by
+example : kktTest (exP ℚ) false [1, 0] [2] [-1] ≤ 0 := by
   norm_num [kktTest, exP, slack, mv, dot, vsub, normInf, cmax, cabs, hmul, lagGrad, gradObj, vadd, tmv, axpy, zeros, Prog.n,
     List.replicate]
 
